@@ -26,10 +26,12 @@ typedef double Real;
 struct SPxOut { static void debug(const void*, const char*, ...) {} };
 
 inline double spxAbs(double a) { return a < 0 ? -a : a; }
-inline bool EQ(double a, double b, double eps)
+inline bool EQ_real(double a, double b, double eps)
 {
 #include "EQ.inc"
 }
+/* the real EQ, with its verdict recorded (contracts name the tolerance comparison by its result, not by a second subtraction) */
+inline bool EQ(double a, double b, double eps) { bool r = EQ_real(a, b, eps); g_eq_calls++; g_eq_res = r ? 1 : 0; return r; }
 
 template <class T> struct VectorBase
 {
@@ -42,7 +44,7 @@ template <class T> struct LPColBase { long long tag; };
 struct Tolerances { double eps; double epsilon() const { return eps; } };
 
 #define REC(m, ii, jj, sc) { g_lp_calls++; GL_calls(m)++; GL_i(m) = (ii); GL_j(m) = (jj); GL_scale(m) = (sc) ? 1 : 0; GL_seq(m) = ++g_seq; }
-#define DIM_OF(a) ((a) <= A_rhs ? g_nr : g_nc)
+#define DIM_OF(a) ((((a) & 3) <= A_rhs) ? g_nr : g_nc)
 /* scalar store: the entered value goes to the view named by the flag, an arbitrary image to the other */
 #define SETI(a, ii, v, sc, img) { __CPROVER_assert(0 <= (ii) && (ii) < DIM_OF(a), "LP index in bounds"); \
       if(sc) { GPV[4 + (a)][ii] = (v); GPV[a][ii] = (img); } else { GPV[a][ii] = (v); GPV[4 + (a)][ii] = (img); } }
@@ -232,11 +234,11 @@ struct H : SPxLPBase<R>, SPxBasisBase<R>
 #endif
    /* vector variants with a loop: parameter slots + zero-argument body (README 1, 2) */
 #define VEC1(NAME, P1)                                                                 \
-   const VectorBase<R>* vp_##NAME; bool sc_##NAME;                                     \
-   void NAME(const VectorBase<R>& P1, bool scale = false) { vp_##NAME = &P1; sc_##NAME = scale; body_##NAME##_v(); }
+   VectorBase<R>* vp_##NAME; bool sc_##NAME;                                     \
+   void NAME(const VectorBase<R>& P1, bool scale = false) { vp_##NAME = (VectorBase<R>*)&P1; sc_##NAME = scale; body_##NAME##_v(); }
 #define VEC2(NAME, P1, P2)                                                             \
-   const VectorBase<R>* vp_##NAME; const VectorBase<R>* vq_##NAME; bool sc_##NAME;     \
-   void NAME(const VectorBase<R>& P1, const VectorBase<R>& P2, bool scale = false) { vp_##NAME = &P1; vq_##NAME = &P2; sc_##NAME = scale; body_##NAME##_v(); }
+   VectorBase<R>* vp_##NAME; VectorBase<R>* vq_##NAME; bool sc_##NAME;     \
+   void NAME(const VectorBase<R>& P1, const VectorBase<R>& P2, bool scale = false) { vp_##NAME = (VectorBase<R>*)&P1; vq_##NAME = (VectorBase<R>*)&P2; sc_##NAME = scale; body_##NAME##_v(); }
 #ifdef NEED_changeLhs_v
    void body_changeLhs_v()
    {
